@@ -707,3 +707,180 @@ func ruleC07R1s(c *Ctx) {
 		c.check(pr.immutableField[f], "C07.R1s", nil, f+" is assigned only in constructors", 0, "stored only into fresh objects", "the schema is modified after construction")
 	}
 }
+
+// ---------------------------------------------------------------------------
+// R3: bytes of a record reach a Prometheus label value (WithLabelValues validates UTF-8 and panics) only
+// after strings.ToValidUTF8
+
+func init() {
+	register("C07", "C07.R3", ruleC07R3)
+	register("C07", "C07.R2", ruleC07R2)
+}
+
+var recordStringSources = map[string]bool{
+	"base.(*FieldSetExtractor).Extract": true,
+	"base.(LogFieldLocator).Get":        true,
+	"util.StringFromBytes":              true,
+}
+
+func ruleC07R3(c *Ctx) {
+	nSites, nDynamic := 0, 0
+	for _, fn := range c.P.universe {
+		for _, site := range callsIn(fn) {
+			cc := site.Common()
+			name := ""
+			if cc.IsInvoke() {
+				name = cc.Method.Name()
+			} else if f := cc.StaticCallee(); f != nil {
+				name = f.Name()
+			}
+			if name != "WithLabelValues" {
+				continue
+			}
+			nSites++
+			args := cc.Args
+			if !cc.IsInvoke() && len(args) > 0 {
+				args = args[1:] // receiver
+			}
+			for _, a := range args {
+				// does the argument derive from record bytes?
+				roots := map[ssa.Value]bool{}
+				deepRoots(a, roots)
+				src := ""
+				for r := range roots {
+					if cl, ok := r.(*ssa.Call); ok {
+						if f := cl.Common().StaticCallee(); f != nil && recordStringSources[anchorName(f)] {
+							src = anchorName(f)
+						}
+					}
+					if u, ok := r.(*ssa.UnOp); ok {
+						if fa, ok := strip(u.X).(*ssa.FieldAddr); ok && fieldName(fa.X.Type(), fa.Field) == "base.LogRecord.Fields" {
+							src = "LogRecord.Fields"
+						}
+					}
+				}
+				if src == "" {
+					continue
+				}
+				nDynamic++
+				construct := "label values of " + canonOf(site.Value())
+				// accepted: the argument is a ToValidUTF8 result, or a slice every element of which is overwritten
+				// with a ToValidUTF8 result in a range loop over that slice that is finished before the call
+				ok := false
+				av := strip(a)
+				if cl, isCall := av.(*ssa.Call); isCall && cl.Common().StaticCallee() != nil && extName(cl.Common().StaticCallee()) == "strings.ToValidUTF8" {
+					ok = true
+				}
+				if !ok {
+					for _, lp := range naturalLoops(fn) {
+						sanitizing := false
+						for b := range lp.blocks {
+							for _, in := range b.Instrs {
+								st, isSt := in.(*ssa.Store)
+								if !isSt {
+									continue
+								}
+								ia, isIA := strip(st.Addr).(*ssa.IndexAddr)
+								if !isIA || strip(ia.X) != av {
+									continue
+								}
+								v, isCall := strip(st.Val).(*ssa.Call)
+								if !isCall || v.Common().StaticCallee() == nil || extName(v.Common().StaticCallee()) != "strings.ToValidUTF8" {
+									continue
+								}
+								// the index is the loop's own range index over the same slice
+								if isRangeIndexOver(lp, ia.Index, av) {
+									sanitizing = true
+								}
+							}
+						}
+						if sanitizing && lp.exitBlock != nil && (lp.exitBlock == site.Block() || lp.exitBlock.Dominates(site.Block())) {
+							ok = true
+						}
+					}
+				}
+				c.check(ok, "C07.R3", fn, construct, site.Pos(),
+					"every element is replaced by strings.ToValidUTF8(element) in a completed range loop before the call (source: "+src+")",
+					"bytes of a log record ("+src+") become label values without UTF-8 sanitising: WithLabelValues panics on the first record whose key field is not valid UTF-8")
+			}
+		}
+	}
+	c.floor("C07.R3", "WithLabelValues call sites", nSites, 8)
+	c.floor("C07.R3", "call sites fed from record fields", nDynamic, 2)
+}
+
+// isRangeIndexOver: idx is the index variable of a `for i := range s` loop (i = phi+1 tested against len(s))
+func isRangeIndexOver(lp *loop, idx ssa.Value, s ssa.Value) bool {
+	bo, ok := strip(idx).(*ssa.BinOp)
+	if !ok || bo.Op != token.ADD {
+		return false
+	}
+	phi, ok := strip(bo.X).(*ssa.Phi)
+	if !ok || phi.Block() != lp.header {
+		return false
+	}
+	if k, ok := constInt(bo.Y); !ok || k != 1 {
+		return false
+	}
+	iff, ok := lp.header.Instrs[len(lp.header.Instrs)-1].(*ssa.If)
+	if !ok {
+		return false
+	}
+	cmp, ok := iff.Cond.(*ssa.BinOp)
+	if !ok || cmp.Op != token.LSS || strip(cmp.X) != ssa.Value(bo) {
+		return false
+	}
+	ln, ok := strip(cmp.Y).(*ssa.Call)
+	return ok && isBuiltin(ln, "len") && strip(ln.Call.Args[0]) == s
+}
+
+// ---------------------------------------------------------------------------
+// R2: explicit panics / fatal exits reachable from the per-record roots are reviewed invariants
+
+var c07R2Reviewed = map[string]string{
+	"base.(*LogAllocator).Release|github.com/relex/gotils/logger.Panic(slice(var:varargs))":                                                             "internal invariant: a negative reference count means a record was released twice; exactly-once release on every path is what C12.R2 / C09.R1 / C19 check, independent of the input bytes",
+	"transform/textractspecial.(*stringExtractor).Extract|panic(recv.position)":                                                                         "internal invariant: position is written only by newStringExtractor with the value of Config.getPosition(), which returns one of the two constants or panics at construction (C16); the field is immutable (proved: position >= 1)",
+	"util.GetFDFromTCPConnOrPanic|(github.com/relex/gotils/logger.Logger).Panic(github.com/relex/gotils/logger.WithFields(makemap),slice(var:varargs))": "SyscallConn/Control fail only for a closed or invalid connection; the connection was returned by AcceptTCP in the previous statement and has not been shared with any other goroutine yet, whatever the client sends",
+}
+
+func ruleC07R2(c *Ctx) {
+	reach, fns := c.runtimeSet()
+	n := 0
+	for _, fn := range fns {
+		eachInstr(fn, func(in ssa.Instruction) {
+			what := ""
+			switch x := in.(type) {
+			case *ssa.Panic:
+				if k, ok := x.X.(*ssa.MakeInterface); ok {
+					if kc, ok := k.X.(*ssa.Const); ok && kc.Value != nil && strings.Contains(kc.Value.String(), "blocking select matched no case") {
+						return // synthesised by the SSA builder for a select without default: not a source-level panic
+					}
+				}
+				what = "panic(" + canonOf(x.X) + ")"
+			case *ssa.Call:
+				if c.P.isNoReturnCall(x) {
+					what = canonOf(x)
+					if len(what) > 120 {
+						what = what[:120] + "…"
+					}
+				}
+			}
+			if what == "" {
+				return
+			}
+			n++
+			key := anchorName(fn) + "|" + what
+			if os.Getenv("SLOGCHECK_F6KEYS") != "" {
+				if _, ok := c07R2Reviewed[key]; !ok {
+					fmt.Printf("R2KEY %q: \"\", // %s via %s\n", key, c.P.pos(in.Pos()), chainTo(reach, fn))
+				}
+			}
+			if reason, ok := c07R2Reviewed[key]; ok {
+				c.assumed("C07.R2", fn, what, in.Pos(), "reviewed: "+reason)
+				return
+			}
+			c.bad("C07.R2", fn, what, in.Pos(), "an explicit panic / fatal exit is reachable while records are processed and is not a reviewed internal invariant; reached via "+chainTo(reach, fn))
+		})
+	}
+	c.floor("C07.R2", "explicit panic sites in the runtime set", n, 3)
+}
